@@ -32,6 +32,9 @@ func c07Positions(c *rt.C, err error, src map[string]string, entry string, class
 	}
 	if len(list) == 0 {
 		c.Event("errors_without_any_position")
+		if c.Runner().Arg("show", "") != "" {
+			fmt.Printf("NOPOS %s %s: %v\n", entry, class, err)
+		}
 		return
 	}
 	for _, e := range list {
@@ -44,12 +47,38 @@ func c07Positions(c *rt.C, err error, src map[string]string, entry string, class
 			name = *e.Pos.Filename
 		}
 		text, ours := src[name]
+		if name == "" && !ours {
+			// a position without a file name: it must at least lie inside one of the j5s sources
+			c.Event("diagnostics_without_file_name")
+			okSomewhere := false
+			for fn, t := range src {
+				if !strings.HasSuffix(fn, ".j5s") {
+					continue
+				}
+				ls := strings.Split(t, "\n")
+				in := func(p errpos.Point) bool {
+					return p.Line >= 0 && p.Column >= 0 && p.Line < len(ls) && p.Column <= utf8.RuneCountInString(ls[p.Line])
+				}
+				if in(e.Pos.Start) && (in(e.Pos.End) || (e.Pos.End.Line == 0 && e.Pos.End.Column == 0)) {
+					okSomewhere = true
+				}
+			}
+			if !okSomewhere {
+				d := srcDetail(src)
+				d["diagnostic"] = e.Error()
+				c.Violate("diagnostic/outside-every-file/"+entry+"/"+class, fmt.Sprintf("%s: diagnostic %q carries position %d:%d-%d:%d (0-based) that lies in none of the source files", entry, rt.Clip(e.Error(), 150), e.Pos.Start.Line, e.Pos.Start.Column, e.Pos.End.Line, e.Pos.End.Column), d)
+			}
+			continue
+		}
 		if !ours {
 			// generated .j5s.proto (linker diagnostics) or no filename: observed, not judged
 			if strings.HasSuffix(name, ".j5s.proto") {
 				c.Event("diagnostics_about_generated_proto")
 			} else {
 				c.Event("diagnostics_without_source_file")
+				if c.Runner().Arg("show", "") != "" {
+					fmt.Printf("NOFILE %s %s: name=%q %v\n", entry, class, name, e)
+				}
 			}
 			continue
 		}
